@@ -73,18 +73,56 @@ EXPLANATION = (
     "handlers_are_modelled, local_names_not_forwarded). PARTIAL: operator semantics is CPython's, covered by twin runs.")
 
 CONFIGS = {
-    "classic": dict(allow_all_attrs=True, allow_public_attrs=True, allow_pickle=True, allow_getattr=True,
-                    allow_setattr=True, allow_delattr=True, import_custom_exceptions=True,
-                    instantiate_custom_exceptions=True, instantiate_oldstyle_exceptions=True),
+    # rpyc's classic mode: NOT typed here - read off a connection established through the live SlaveService on first use
+    # (live_classic_config); it allows every name and switches the `exposed_` prefix off
+    "classic": None,
+    # not a mode of rpyc's: every name allowed with the `exposed_` prefix left on (exercises the prefix logic where
+    # nothing is refused)
+    "all-attrs": dict(allow_all_attrs=True, allow_public_attrs=True, allow_pickle=True, allow_getattr=True,
+                      allow_setattr=True, allow_delattr=True, import_custom_exceptions=True,
+                      instantiate_custom_exceptions=True, instantiate_oldstyle_exceptions=True),
     "public": dict(allow_public_attrs=True, allow_setattr=True, allow_delattr=True),
     "default": dict(),
 }
-# configurations used for particular targets only (not part of the policy comparison with the model)
-EXTRA_CONFIGS = {
-    # classic without the `exposed_` prefix: _check_attr's hasattr(obj, "exposed_" + name) probe is off, so a target whose
-    # __getattr__ answers every name is not asked for names nobody used
-    "classic-noprefix": dict(CONFIGS["classic"], allow_exposed_attrs=False),
-}
+
+
+class _NullChannel(object):
+    def send(self, data):
+        pass
+
+    def close(self):
+        pass
+
+    def fileno(self):
+        return -1
+
+
+def live_classic_config():
+    """the switches a connection established through the live `SlaveService` ends up with, as far as they differ from
+    DEFAULT_CONFIG (the caller passing no configuration)"""
+    from rpyc.core import service, protocol
+    conn = service.SlaveService._connect(_NullChannel(), {})
+    try:
+        cfg = dict((k, v) for k, v in conn._config.items() if type(v) is bool and protocol.DEFAULT_CONFIG.get(k) != v)
+    finally:
+        try:
+            conn.close()
+        except Exception:  # noqa
+            pass
+    return cfg
+
+
+def config_dict(config_name):
+    if config_name == "classic" and CONFIGS["classic"] is None:
+        CONFIGS["classic"] = live_classic_config()
+    return CONFIGS[config_name]
+
+
+def prefix_on(config_name):
+    """is the `exposed_` prefix in force under this configuration"""
+    from rpyc.core.protocol import DEFAULT_CONFIG
+    cfg = config_dict(config_name)
+    return bool(cfg.get("allow_exposed_attrs", DEFAULT_CONFIG["allow_exposed_attrs"]) and cfg.get("exposed_prefix", DEFAULT_CONFIG["exposed_prefix"]))
 ADDR = re.compile(r"0x[0-9a-fA-F]+")
 KNOWN_TYPE_METHODS = "builtin-instance-proxy-has-type-methods"
 KNOWN_POLICY_PROBE = "policy-probe-evaluates-attribute"
@@ -627,7 +665,9 @@ KINDS = ["list", "dict", "set", "bytearray", "deque", "generator", "bytesio", "v
 
 def config_for(kind, config_name):
     """the configuration a sequence on a target of this kind runs under"""
-    return "classic-noprefix" if kind == "autoviv" else config_name
+    # (an auto-vivifying namespace only where the `exposed_` prefix is off - rpyc's classic mode: with the prefix on,
+    # _check_attr's hasattr(obj, "exposed_" + name) probe makes it grow a node per access, the listed known finding)
+    return "classic" if kind == "autoviv" else config_name
 
 
 def make_object(kind, seed):
@@ -732,12 +772,12 @@ class Session(object):
             def exposed_get(self, k):
                 return sess.objs[k]
 
-        if config_name in EXTRA_CONFIGS:
+        if not prefix_on(config_name):
             SideB.get = SideB.exposed_get        # no `exposed_` prefix in this configuration: the root's method by its plain name
         self.net = Net()
         self.cm = self.net.installed()
         self.cm.__enter__()
-        cfg = CONFIGS[config_name] if config_name in CONFIGS else EXTRA_CONFIGS[config_name]
+        cfg = config_dict(config_name)
         self.ca, self.cb = self.net.connect_pair(None, SideB(), dict(cfg), dict(cfg))
         self.root = self.ca.root
         self.nframes = len(self.net.frames)
@@ -1319,7 +1359,7 @@ def safe_hasattr(o, n):
 def config_allows(config_name, perm, name):
     """the attribute policy as the documentation of DEFAULT_CONFIG states it (for names without an `exposed_` twin):
     used only to decide whether `hasattr` / `getattr(.., default)` - which swallow the refusal - are performed"""
-    if config_name in ("classic", "classic-noprefix"):
+    if config_name in ("classic", "all-attrs"):
         return True
     from rpyc.core.protocol import DEFAULT_CONFIG
     if perm != "get" and config_name == "default":
@@ -1451,7 +1491,7 @@ def run_sequence(kind, config_name, seed, seq, ops, stop_at_first=True, skip_sig
                 if snap(tw.target) != before:
                     problems.append((idx, label, "a local name was written through to the target"))
                 continue
-            if names is not None and len(names) == 1 and type(names[0][1]) is str and config_name != "classic-noprefix" \
+            if names is not None and len(names) == 1 and type(names[0][1]) is str and prefix_on(config_name) \
                     and not safe_hasattr(tw.twin if not label.startswith("cmp:") else type(tw.twin), names[0][1]) \
                     and safe_hasattr(tw.twin if not label.startswith("cmp:") else type(tw.twin), "exposed_" + names[0][1]):
                 # the name does not exist on the target but its `exposed_` namesake does: by design the access is
@@ -1682,7 +1722,7 @@ def same_class(c, K, sess):
 
 
 def class_instance_cases():
-    return [(n, o, cfg) for n in sorted(CLASS_INSTANCE_TARGETS) for o in ("class-first", "instance-first") for cfg in ("classic", "public")]
+    return [(n, o, cfg) for n in sorted(CLASS_INSTANCE_TARGETS) for o in ("class-first", "instance-first") for cfg in ("classic", "all-attrs", "public")]
 
 
 _KEYS = {"a": 1, "b": 2, 3: None}
@@ -1949,10 +1989,10 @@ def fixed_cases():
     out = [("class_instance", list(c)) for c in class_instance_cases()]
     out += [("comparison", [n, cfg]) for n in COMPARISON_PAIRS for cfg in ("classic", "default")]
     out += [("exception_class", [])]
-    out += [("keyword_names", [cfg]) for cfg in ("classic", "public")]
+    out += [("keyword_names", [cfg]) for cfg in ("classic", "all-attrs", "public")]
     out += [("policy_probe", ["public"])]
-    out += [("access_hooks", ["hooked", cfg]) for cfg in ("classic", "public", "default")]
-    out += [("access_hooks", ["autoviv", "classic-noprefix"])]
+    out += [("access_hooks", ["hooked", cfg]) for cfg in ("classic", "all-attrs", "public", "default")]
+    out += [("access_hooks", ["autoviv", "classic"])]
     return out
 
 
@@ -2032,7 +2072,7 @@ def correspondence(ctx):
         if time.time() > deadline:
             break
         kind = KINDS[k % len(KINDS)]
-        config_name = config_for(kind, ["classic", "classic", "public", "default"][r.below(4)])
+        config_name = config_for(kind, ["classic", "all-attrs", "public", "default"][r.below(4)])
         seed = r.next() % 100000
         seq = gen_sequence(r.fork("s%d" % k), kind, 3 + r.below(23), ops)
         problems, tw = run_sequence(kind, config_name, seed, seq, ops, skip_signatures=known_sigs)
@@ -2232,7 +2272,7 @@ def boundary_sequences(ops):
     r = Rng(99)
     for kind in KINDS:
         cands = [i for i, o in enumerate(ops) if o.kinds is None or kind in o.kinds]
-        for cfg in ("classic", "public", "default"):
+        for cfg in ("classic", "all-attrs", "public", "default"):
             seq = [(i, r.next()) for i in cands]
             out.append((kind, config_for(kind, cfg), 5, seq))
     return out
@@ -2301,7 +2341,7 @@ def oracle_search(ctx, corr, broken):
         while time.time() < deadline:
             k += 1
             kind = KINDS[k % len(KINDS)]
-            yield kind, config_for(kind, ["classic", "public", "default"][k % 3]), r.next() % 100000, gen_sequence(r.fork("q%d" % k), kind, 3 + r.below(23), ops)
+            yield kind, config_for(kind, ["classic", "all-attrs", "public", "default"][k % 4]), r.next() % 100000, gen_sequence(r.fork("q%d" % k), kind, 3 + r.below(23), ops)
 
     for kind, cfg, seed, seq in candidates():
         try:
@@ -2349,9 +2389,9 @@ def _known_probes():
     out = [(KNOWN_TYPE_METHODS, differs, text)]
     steps, problems = policy_probe_case("public")
     hit = [p_ for p_ in problems if p_[3] == KNOWN_POLICY_PROBE]
-    # the same probes on a target with a dynamic __getattr__: while the `exposed_` prefix is on (classic included), every
+    # the same probes on a target with a dynamic __getattr__: while the `exposed_` prefix is on (not in classic mode), every
     # access through a proxy also looks `exposed_<name>` up on the target - an auto-vivifying namespace grows a stray node
-    sess = Session("classic")
+    sess = Session("all-attrs")
     try:
         far, twin = Tree(), Tree()
         p = sess.lend(far)
